@@ -1,15 +1,111 @@
 """Replay of counterexamples and known-finding witnesses against the real code.
-Drivers are C++ programs under /verif/replay compiled against the sources of the working tree."""
-import os, subprocess, json, hashlib
+Drivers are C++ programs under /verif/replay, compiled against the sources of the working tree
+(g++ -O1, ASan + UBSan, -D_GLIBCXX_ASSERTIONS); objects are cached by content hash in /verif/build."""
+import os, subprocess, json, hashlib, re, sys, concurrent.futures
 
 ROOT = '/verif'
 REPO = os.environ.get('LPV_REPO', '/repo')
+BUILD = os.environ.get('LPV_BUILD', os.path.join(ROOT, 'build', 'replay'))
+CXXFLAGS = ['-std=c++14', '-O1', '-g', '-fsanitize=address,undefined', '-fno-omit-frame-pointer', '-D_GLIBCXX_ASSERTIONS', '-w']
+SRCS = ['Numerics.cpp', 'Linear_Algebra.cpp', 'Integration.cpp', 'Special_Functions.cpp', 'Statistics.cpp', 'Utilities.cpp', 'Natural_Units.cpp']
+
+
+def _inc():
+    return ['-I' + os.path.join(REPO, 'include'), '-I' + os.path.join(REPO, '_build', 'generated'), '-I' + os.path.join(REPO, 'src'), '-I' + os.path.join(ROOT, 'build', 'generated')]
+
+
+def _hdr_hash():
+    h = hashlib.sha256()
+    d = os.path.join(REPO, 'include', 'libphysica')
+    for fn in sorted(os.listdir(d)):
+        h.update(open(os.path.join(d, fn), 'rb').read())
+    h.update(' '.join(CXXFLAGS).encode())
+    return h
+
+
+def _ensure_generated():
+    gen = os.path.join(REPO, '_build', 'generated', 'version.hpp')
+    if os.path.exists(gen): return
+    alt = os.path.join(ROOT, 'build', 'generated'); os.makedirs(alt, exist_ok=True)
+    if not os.path.exists(os.path.join(alt, 'version.hpp')):
+        open(os.path.join(alt, 'version.hpp'), 'w').write('#pragma once\n#define PROJECT_NAME "libphysica"\n#define PROJECT_VERSION "0"\n#define GIT_BRANCH ""\n#define GIT_COMMIT_HASH ""\n#define TOP_LEVEL_DIR "%s/"\n' % REPO)
+
+
+def _compile_obj(src):
+    h = _hdr_hash(); p = os.path.join(REPO, 'src', src)
+    h.update(open(p, 'rb').read())
+    obj = os.path.join(BUILD, src + '.' + h.hexdigest()[:20] + '.o')
+    if not os.path.exists(obj):
+        os.makedirs(BUILD, exist_ok=True)
+        for fn in os.listdir(BUILD):
+            if fn.startswith(src + '.') and fn.endswith('.o'):
+                try: os.remove(os.path.join(BUILD, fn))
+                except OSError: pass
+        tmp = obj + '.tmp%d' % os.getpid()
+        r = subprocess.run(['g++'] + CXXFLAGS + _inc() + ['-c', p, '-o', tmp], capture_output=True, text=True)
+        if r.returncode != 0: raise RuntimeError('compile of %s failed: %s' % (src, r.stderr[-1500:]))
+        os.replace(tmp, obj)
+    return obj
+
+
+def build_objects():
+    _ensure_generated()
+    with concurrent.futures.ThreadPoolExecutor(8) as ex:
+        return list(ex.map(_compile_obj, SRCS))
+
+
+def run_driver(name, args=(), timeout=120):
+    """compile replay/<name>.cpp against the working tree and run it; returns (reproduced, text)"""
+    objs = build_objects()
+    src = os.path.join(ROOT, 'replay', name + '.cpp')
+    h = hashlib.sha256(open(src, 'rb').read()); h.update(open(os.path.join(ROOT, 'replay', 'harness.hpp'), 'rb').read())
+    for o in objs: h.update(o.encode())
+    exe = os.path.join(BUILD, name + '.' + h.hexdigest()[:16])
+    if not os.path.exists(exe):
+        for fn in os.listdir(BUILD):
+            if fn.startswith(name + '.') and not fn.endswith('.o'):
+                try: os.remove(os.path.join(BUILD, fn))
+                except OSError: pass
+        r = subprocess.run(['g++'] + CXXFLAGS + _inc() + ['-I' + os.path.join(ROOT, 'replay'), src] + objs + ['-lconfig++', '-o', exe], capture_output=True, text=True)
+        if r.returncode != 0: raise RuntimeError('link of %s failed: %s' % (name, r.stderr[-1500:]))
+    env = dict(os.environ); env['ASAN_OPTIONS'] = 'exitcode=99:detect_leaks=0:abort_on_error=0'; env['UBSAN_OPTIONS'] = 'halt_on_error=1:exitcode=98:print_stacktrace=0'
+    try:
+        r = subprocess.run([exe] + [str(a) for a in args], capture_output=True, text=True, timeout=timeout, env=env)
+    except subprocess.TimeoutExpired:
+        return None, 'driver timed out'
+    out = r.stdout[-6000:]
+    if 'REPRODUCED' in out and 'NOT-REPRODUCED' not in out: return True, out
+    if 'NOT-REPRODUCED' in out: return False, out
+    return None, out + r.stderr[-1000:]
+
+
+def load_map():
+    try:
+        return json.load(open(os.path.join(ROOT, 'replay', 'map.json')))
+    except Exception:
+        return []
 
 
 def attempt(pid, ob):
     """try to turn a failed obligation into a failing input on the real code."""
-    return {'reproduced': None, 'scenario': None, 'observed': 'no replay driver for this obligation'}
+    for ent in load_map():
+        if ent.get('property') not in (None, pid): continue
+        if re.search(ent['match'], ob['id']):
+            ok, text = run_driver(ent['driver'], ent.get('args', []))
+            return {'reproduced': ok, 'scenario': {'driver': 'replay/%s.cpp' % ent['driver'], 'args': ent.get('args', []), 'derived_from': ent.get('derived_from', 'contract clause and solver model')},
+                    'observed': text}
+    return {'reproduced': None, 'scenario': None, 'observed': 'no replay driver matches this obligation'}
 
 
 def run_witness(k):
-    return None, 'no witness driver'
+    w = k.get('witness') or {}
+    if 'driver' not in w: return None, 'no witness driver'
+    try:
+        return run_driver(w['driver'], w.get('args', []))
+    except Exception as ex:
+        return None, str(ex)
+
+
+if __name__ == '__main__':
+    ok, text = run_driver(sys.argv[1], sys.argv[2:])
+    print(text); print('reproduced =', ok)
